@@ -139,6 +139,7 @@ func genC16(env *core.Env, emit func(core.Case)) {
 	srv.Now = func() int64 { clock.mu.Lock(); defer clock.mu.Unlock(); return clock.sec }
 	alphabet := []string{"ra", "rb", "rc", "adv3", "adv8", "adv301", "zone", "fail", "rcode"}
 	names := map[string]string{"ra": "a.example", "rb": "b.example", "rc": "c.example"}
+	histCount := 0
 	runHistory := func(hist []string, stream string) {
 		resolver, err := ech.NewResolver(srv.URL())
 		if err != nil {
@@ -150,6 +151,15 @@ func genC16(env *core.Env, emit func(core.Case)) {
 		version, failing := 1, 0
 		srv.Set(c16Zone(version, failing))
 		srv.TakeLog()
+		// every other history is served through an HTTP cache: the responses carry an Age (older than some
+		// of the TTLs) and caching directives. What the Resolver may keep, and for how long, is still
+		// decided by the record TTLs alone.
+		histCount++
+		if histCount%2 == 0 {
+			srv.SetHeaders(map[string]string{"Age": []string{"7", "1", "400"}[histCount/2%3], "Cache-Control": "max-age=600"})
+		} else {
+			srv.SetHeaders(nil)
+		}
 		ops := []core.Op{{Line: "cache-reset", Kind: 'M', Want: "ok"}}
 		// freshness monitor: per (name,type) the time and minTTL of the last successful fetch
 		type fetched struct {
